@@ -32,7 +32,7 @@ def check(ctx, R):
         try:
             fn(ctx, R, T)
         except _NoValue as e:
-            R.fail(rule, "%s|returns-nothing" % e.func.qualname, "%s has no `return <value>`: the caller gets None instead of a signature / key" % e.func.qualname, e.func.loc())
+            R.fail(rule, "%s|returns-nothing" % e.func.qualname, "%s has a path that returns no value: the caller gets None instead of a signature / key" % e.func.qualname, e.func.loc())
     _stateless(ctx, R)
     R.assume("cryptography / rsa / pycryptodome implement RSASSA-PKCS1-v1_5 as documented; adbd verifies RSA_verify(NID_sha1, token, 20, sig)")
     R.undecided("the arithmetic inside the crypto libraries is outside the analysed source")
@@ -104,7 +104,11 @@ def _blob(ctx, R, T):
     if tb is not None:
         gg = ctx.cfg(tb)
         last = [n for n in gg.live_nodes() if n.kind == "stmt" and isinstance(n.ast, ast.Return)]
-        okb = any(T.term(tb, n, n.ast.value) == ("call", ".to_bytes", (("p", tb.params[0]), ("p", tb.params[1]), ("p", tb.params[2])), ()) for n in last)
+        dft = ctx.df(tb)
+        hk = ("truthy", key(ast.Call(func=ast.Name(id="hasattr", ctx=ast.Load()), args=[ast.Name(id=tb.params[0], ctx=ast.Load()), ast.Constant(value="to_bytes")], keywords=[])))
+        # the branch for an `n` without to_bytes is the Python 2 path (dead on Python 3: every int has it); every other return is int.to_bytes
+        py3 = [n for n in last if not any(fa[0] == hk and fa[1] is False for fa in dft.facts(n))]
+        okb = bool(py3) and all(n.ast.value is not None and T.term(tb, n, n.ast.value) == ("call", ".to_bytes", (("p", tb.params[0]), ("p", tb.params[1]), ("p", tb.params[2])), ()) for n in py3)
         R.check(okb, "BLOB", tb.qualname, "_to_bytes(n, length, order) = n.to_bytes(length, order)", "_to_bytes no longer forwards (length, byte order) to int.to_bytes unchanged", tb.loc())
 
 
@@ -116,6 +120,10 @@ def _keyfile(ctx, R, T):
     R.check(len(writes) == 2 and g.dominates([writes[0][0]], writes[1][0]), "KEYFILE", q + "|writes", "two writes: blob, then comment", "expected two writes (base64 blob, then the comment), found %d" % len(writes), f.loc())
     if len(writes) != 2:
         return
+    from ..util import swallowing_handlers
+    for wn, _wc in writes:
+        R.check(g.dominates([wn], g.exit, exc=False) and not swallowing_handlers(g, wn), "KEYFILE", q + "|always|" + norm_stmt(wn.ast)[:40], "written on every normal path, failures propagate",
+                "write_public_keyfile can return normally without `%s` having succeeded (an early return or a swallowed failure): a stale or truncated .pub is left next to the private key" % norm_stmt(wn.ast)[:50], f.loc(wn.ast))
     t0 = T.term(f, writes[0][0], writes[0][1].args[0])
     t1 = T.term(f, writes[1][0], writes[1][1].args[0])
     enc = ("call", "auth.keygen.encode_pubkey", (("p", "private_key_path"),), ())
@@ -165,6 +173,8 @@ def _one_return(ctx, f):
     rets = [n for n in g.live_nodes() if n.kind == "stmt" and isinstance(n.ast, ast.Return)]
     if not [n for n in rets if n.ast.value is not None]:
         raise _NoValue(f)
+    if [n for n in rets if n.ast.value is None or (isinstance(n.ast.value, ast.Constant) and n.ast.value.value is None)]:
+        raise _NoValue(f)            # some path returns nothing
     if len(rets) != 1:
         raise AnalysisError("SIGN", "%s has %d returns" % (f.qualname, len(rets)))
     return rets[0]
@@ -334,8 +344,12 @@ def _keygen(ctx, R, T):
         pe = kw.get("public_exponent", c.args[0] if c.args else None)
         ok, v = ctx.fold.try_eval(pe, f.mod, {}) if pe is not None else (False, None)
         R.check(ok and v in (3, 65537), "KEYGEN", f.qualname + "|exponent", "public exponent 65537", "public exponent %r" % (v,), f.loc(n.ast))
+    from ..util import swallowing_handlers
+    pw = [(n, c) for n in g.live_nodes() for c in node_calls(n) if call_attr(c) == "write" and any(call_attr(x) == "private_bytes" for x in ast.walk(c) if isinstance(x, ast.Call))]
+    R.check(len(pw) == 1 and g.dominates([pw[0][0]], g.exit, exc=False) and not swallowing_handlers(g, pw[0][0]), "KEYGEN", f.qualname + "|private-file", "the private key is written on every normal path, failures propagate",
+            "keygen() can return normally without having written the private key it generated (early return / swallowed failure): the .pub no longer belongs to the private key on disk", f.loc())
     wp = [(n, c) for n in g.live_nodes() for c in node_calls(n) if call_attr(c) == "write_public_keyfile"]
-    ok = len(wp) == 1 and g.dominates([wp[0][0]], g.exit, exc=False)
+    ok = len(wp) == 1 and g.dominates([wp[0][0]], g.exit, exc=False) and not swallowing_handlers(g, wp[0][0])
     if ok:
         n, c = wp[0]
         a = [T.term(f, n, x) for x in c.args]
